@@ -455,7 +455,8 @@ def modelrun(lines, timeout=1200, nproc=NCPU):
         if not chunk:
             return []
         txt = "\n".join(" ".join(str(int(x)) for x in l) for l in chunk) + "\n"
-        p = subprocess.run([MODELRUN], input=txt, stdout=subprocess.PIPE, stderr=subprocess.PIPE,
+        # the extracted code recurses along its input lists: lift the soft stack limit
+        p = subprocess.run(["bash", "-c", "ulimit -s unlimited 2>/dev/null || ulimit -s $(ulimit -Hs) 2>/dev/null; exec '%s'" % MODELRUN], input=txt, stdout=subprocess.PIPE, stderr=subprocess.PIPE,
                            timeout=timeout, universal_newlines=True)
         if p.returncode != 0:
             raise RuntimeError("modelrun failed: rc=%d %s" % (p.returncode, p.stderr[-500:]))
